@@ -9,7 +9,8 @@ COQ_CHECK = "lcheck"
 COQ_PREAMBLE = ("Inductive lcase := CMgm (c : M_Mgm.case) (r : M_Mgm.rcase) | CMgm2 (c : M_Mgm2.case2).\n"
                 "Definition lcheck (c : lcase) : bool := match c with CMgm x r => M_Mgm.check_case x && "
                 "M_Mgm.rcheck_case r | CMgm2 x => M_Mgm2.check_case2 x end.")
-OBLIGATIONS = ['mgm_no_move_1opt_partial', 'mgm_isolated_1opt', 'mgm_improvable_moves_partial', 'mgm2_no_move_1opt_refuted']
+OBLIGATIONS = ['mgm_no_move_1opt_partial', 'mgm_isolated_1opt', 'mgm_improvable_moves_partial', 'mgm2_no_move_1opt_refuted',
+               'mgm_async_no_move_1opt']
 N_QUICK, N_THOROUGH = 300, 6000
 PARALLEL = 8
 SHARD = 40
@@ -22,10 +23,11 @@ RULE = ("random DCOPs of 1-6 variables (domains of 1-3 integer values), binary/t
 MODELLED = ("handler models of mgm.py / mgm2.py compared on full event traces, final states and channels; for MGM "
             "in addition the round-level function mgm_next (about which the theorems are) is iterated from the "
             "observed initial assignment with the observed draws and compared with the assignment at every cycle "
-            "boundary of the asynchronous run. Theorems: round-level (all inputs); the asynchronous refinement is "
-            "checked, not proved; MGM2: refutation witnesses only")
+            "boundary of the asynchronous run. Theorems: round-level (all inputs) AND, since the deepening "
+            "(P_Mgm3*.v), mgm_async_no_move_1opt about real asynchronous executions at cycle boundaries (the "
+            "refinement to mgm_next is proved for every schedule); MGM2: refutation witnesses only")
 META = dict(
-    level_text=('Partial proof (Coq). Proved for every DCOP, min and max, all draws: if one complete MGM cycle (as a function on assignments) changes no value then no variable can improve the global cost by changing alone (variables without neighbour: by their start-time choice), and conversely an improvable variable forces some change. NOT proved: the refinement of the asynchronous handlers to the cycle function (checked on every run by the round-level and full-trace correspondences). MGM2: refuted on the code as it is (theorem mgm2_no_move_1opt_refuted, known finding C04-mgm2-idle-after-commitment); no MGM2 1-opt theorem.'),
+    level_text=('Partial proof (Coq). Proved for every DCOP, min and max, all draws: if one complete MGM cycle (as a function on assignments) changes no value then no variable can improve the global cost by changing alone (variables without neighbour: by their start-time choice), and conversely an improvable variable forces some change. ALSO proved (deepening, P_Mgm3*.v): the refinement of the asynchronous handler model to the cycle function under EVERY schedule, hence mgm_async_no_move_1opt: if no variable changed its value between a reachable configuration where all computations have completed j cycles and one where they have completed j+1, no variable can improve the global cost alone - the full MGM statement (the refinement is additionally checked on every run by the round-level and full-trace correspondences). MGM2: refuted on the code as it is (theorem mgm2_no_move_1opt_refuted, known finding C04-mgm2-idle-after-commitment); no MGM2 1-opt theorem.'),
     level_note=("Trusted: Coq kernel/vm_compute, M_Mgm.v / M_Mgm2.v + Net.v as renderings of the Python code, the "
                 "thread-free netdriver, integer costs inside int32."),
     technique="Coq proof over an executable round-level model + round-level and full-trace correspondence",
